@@ -40,7 +40,7 @@ claim("C09","exploration","runtime monitor: numeric-rule oracle over an enumerat
  "Every boundary literal is placed at every numeric position (field ids, enum values, integer constants/defaults of every width, enum-by-number, bool/double from integers); the model's range rules say accept or reject, and an accepted program's compiled numbers must equal the literals written (decimal, hex, signed, and decimal with leading zeros).",
  "the statement's numeric rules are the oracle; id 0 left open", "DESIGN.md §5 C09")
 claim("C10","exploration","runtime monitor: output-equality oracle (sha256 of every generated file and of the canonically relabelled plugin request) across in-process repetitions, forced link orders and separate processes",
- "Each program is generated repeatedly in one process, under forced link orders and again in separate processes; path sets, file contents, success/failure and the plugin request (up to id renumbering) must be identical.",
+ "Each program is generated repeatedly in one process, under forced link orders and again in separate processes; path sets, file contents, success/failure and the plugin request (up to id renumbering) must be identical. Every sixth program is a hand-built cross-module service inheritance chain whose deep modules the root reaches only transitively, beside sibling modules that include them directly, so that an order-dependent walk of the includes changes the outcome between runs.",
  "map-order nondeterminism is sampled, not enumerated, except link orders", "DESIGN.md §5 C10")
 
 claim("C16","fault_enumeration","offline trace checking of scripted fake-plugin event logs against the protocol automaton + exit status/stderr + strace process records + race-detector build of the host",
